@@ -61,7 +61,9 @@ K("awkward_ListArray_getitem_jagged_apply",
 
 K("awkward_ListArray_getitem_next_array_advanced",
   extents={"fromarray": "lenarray"},
-  store_asserts={"tocarry": ["fromstarts[i] <= value and value < fromstops[i]"], "toadvanced": ["value == i"]},
+  store_asserts={"tocarry": ["fromstarts[i] <= value and value < fromstops[i]"], "toadvanced": ["value == fromadvanced[i]"]},
+  # (the entry handed to the next dimension is the position within the broadcast index arrays, as in the sibling
+  #  spreadadvanced kernels; `== i` was the pre-016f50f behaviour, which is only right when no range precedes the arrays)
   requires=[INRANGE("fromadvanced", "lenstarts", "lenarray")],
   serves=["C01", "C12", "C13"])
 
@@ -278,8 +280,8 @@ K("awkward_UnionArray_regular_index",
 K("awkward_RegularArray_getitem_next_array_advanced",
   extents={"fromarray": "lenarray"},
   requires=[INRANGE("fromadvanced", "length", "lenarray")],
-  loops={"L0": ["0 <= i", "forall(q, 0, i, tocarry[q] == q*size + fromarray[fromadvanced[q]] and toadvanced[q] == q)"]},
-  ensures_ok=["forall(q, 0, length, tocarry[q] == q*size + fromarray[fromadvanced[q]] and toadvanced[q] == q)"],
+  loops={"L0": ["0 <= i", "forall(q, 0, i, tocarry[q] == q*size + fromarray[fromadvanced[q]] and toadvanced[q] == fromadvanced[q])"]},
+  ensures_ok=["forall(q, 0, length, tocarry[q] == q*size + fromarray[fromadvanced[q]] and toadvanced[q] == fromadvanced[q])"],
   serves=["C01", "C12", "C13"])
 
 
